@@ -14,19 +14,33 @@ pub struct C18 {
     pub entry: Entry,
     pub d: usize,
     pub routing: Routing,
+    /// false: serde_json value tree (structs as maps); true: sequence-encoding value tree (structs as sequences)
+    pub seq: bool,
 }
 
 fn go<T: Scalar, const D: usize>(h: &C18, out: &mut Outcome<T>) {
     let g = h.entry.ograph();
     let kin = rat_kin::<T>(&g, D);
     let original = build::<D>(&h.entry, &h.routing.sig);
-    // self-describing, f64-exact format: the serde_json value tree (no text round trip)
+    // two self-describing, f64-exact formats (no text round trip): serde_json's value tree encodes structs
+    // as maps keyed by field name, the harness's own SV tree encodes them as sequences of fields
     let tree = serde_json::to_value(&original).expect("serialise");
-    let restored: SampleGenerator<D> = match serde_json::from_value(tree.clone()) {
-        Ok(s) => s,
-        Err(e) => {
-            out.structural.push(format!("deserialisation failed: {}", e));
-            return;
+    let restored: SampleGenerator<D> = if h.seq {
+        let sv = crate::seqfmt::to_sv(&original).expect("serialise (sequence format)");
+        match crate::seqfmt::from_sv(sv) {
+            Ok(s) => s,
+            Err(e) => {
+                out.structural.push(format!("deserialisation from the sequence-encoding format failed: {}", e));
+                return;
+            }
+        }
+    } else {
+        match serde_json::from_value(tree.clone()) {
+            Ok(s) => s,
+            Err(e) => {
+                out.structural.push(format!("deserialisation failed: {}", e));
+                return;
+            }
         }
     };
     let (zero, one) = (T::rat(0, 1), T::rat(1, 1));
@@ -78,7 +92,7 @@ fn go<T: Scalar, const D: usize>(h: &C18, out: &mut Outcome<T>) {
 
 impl Harness for C18 {
     fn name(&self) -> String {
-        format!("c18/{}/D={}/{}", self.entry.name, self.d, self.routing.name)
+        format!("c18/{}/D={}/{}/{}", self.entry.name, self.d, self.routing.name, if self.seq { "structs-as-sequences" } else { "structs-as-maps" })
     }
     fn run<T: Scalar>(&self, out: &mut Outcome<T>) {
         with_dim!(self.d, go, self, out)
@@ -108,17 +122,20 @@ pub fn run(cfg: &RunCfg) -> PartResult {
     list.extend(entries(cfg.tier, true));
     for entry in list {
         let g = entry.ograph();
+        if cfg.tier == Tier::Quick && g.num_loops() >= 3 {
+            continue;
+        }
         let dims = if cfg.tier == Tier::Thorough { entry.dims.clone() } else { vec![entry.dims[(cfg.seed as usize) % entry.dims.len()]] };
         for d in dims {
-            for routing in routings(&g, 2) {
+            for (k, routing) in routings(&g, 2).into_iter().enumerate() {
                 covered.push(json!({"graph": entry.name, "D": d, "routing": routing.name}));
-                total.merge(check_harness(&C18 { entry: entry.clone(), d, routing }, cfg));
+                total.merge(check_harness(&C18 { entry: entry.clone(), d, routing, seq: k % 2 == 1 }, cfg));
             }
         }
     }
     total.bounds = json!({
         "catalogue": covered,
-        "format": "serde_json value tree (self-describing; f64 preserved exactly; no text)",
+        "format": "two value-tree formats, both self-describing and f64-exact: serde_json::Value (structs as maps) for the first routing, the harness's SV tree (structs as sequences) for the second",
         "outside": "other serde formats; text round trips that do not preserve f64"
     });
     total.assumptions = vec!["term equality implies bit-identical samples for every deterministic scalar type".into()];
